@@ -32,6 +32,22 @@ def gen_and_validate(chk, harness, jobs, trace_module, constants=None, mode="pla
                 rc1, err = -99, "generator timed out"
             if rc1 == 0:
                 break
+            if rc1 == -99:
+                # the overall time limit of the generator (a slow machine), not an event of the code under test: every single call
+                # runs under its own watchdog.  A restartable generator continues behind the last complete record; otherwise the
+                # records written so far are judged and the shortfall is noted.
+                lines = []
+                if os.path.exists(out):
+                    with open(out) as f: lines = f.read().split("\n")
+                    if lines and not lines[-1].endswith("}"):
+                        lines = lines[:-1]                  # drop a half-written record
+                    lines = [l for l in lines if l]
+                    with open(out, "w") as f: f.write("\n".join(lines) + ("\n" if lines else ""))
+                if job.get("one_line_per_input") and "{start}" in " ".join(map(str, job["args"])) and attempt + 1 < job.get("max_restarts", 1):
+                    start = len(lines)
+                    continue
+                chk.parts.setdefault("generator_time_limit", []).append("%s/%s (%s): stopped after %d records" % (harness, job["tag"], mode, len(lines)))
+                break
             rc = rc1; allerr.append(err[-2500:])
             last = ""
             lines = []
